@@ -79,12 +79,14 @@ def c01_pytz_fold(case, observed, expected):
 
 
 def c01_component_name_escaped_twice(case, observed, expected):
+    """the only difference is the NAME of a component, and that (invalid) name contains a character that is
+    special in TEXT values: BEGIN/END values are written through the TEXT escaper twice and read through
+    the placeholder mechanism, so such names change on every trip"""
     d = (case.get("diff") or {})
     if d.get("what") != "name":
         return False
-    a, b = d.get("a", ""), d.get("b", "")
-    esc = a.replace("\\", "\\\\").replace(";", "\\;").replace(",", "\\,")
-    return any(ch in a for ch in "\\;,") and b == esc
+    a = d.get("a", "")
+    return any(ch in a for ch in "\\;,\r\n")
 
 
 def c01_unescape_instability(case, observed, expected):
